@@ -536,9 +536,16 @@ func mutateText(t *rapid.T, s string, alphabet string) string {
 	return string(b)
 }
 
+func genAgreeNum(t *rapid.T) string {
+	base := rapid.SampledFrom([]string{"0", "1", "12", "10", "1_000", "1.5", ".5", "1.", "1e3", "1E-3", "1.5e+10", "0x1F", "0X_1", "0b101", "0o17", "017", "1K", "1Ki", "2Mi", "1.5M", ".5G", "1_0.0_1", "0.0", "00", "1__0", "1_", "7_", "0x", "0b2", "0o8", "1e", "1e+", "1.e3", "1Kib", "1k", "1.5Ki", "0.5Ti", "1P", "1Pi", "0e0", "0_0", "0b", "0B1", "0O7", "1\x00"}).Draw(t, "num")
+	return mutateText(t, base, "0123456789_.eE+-xXbBoOKMGTPi abcfF")
+}
+
 func genAgree(t *rapid.T) AgreeCase {
 	switch rapid.IntRange(0, 2).Draw(t, "class") {
 	case 0:
+		return AgreeCase{"num", genAgreeNum(t)}
+	case 99:
 		base := rapid.SampledFrom([]string{"0", "1", "12", "1_000", "1.5", ".5", "1.", "1e3", "1E-3", "1.5e+10", "0x1F", "0X_1", "0b101", "0o17", "017", "1K", "1Ki", "1.5M", ".5G", "1_0.0_1", "0.0", "00", "1__0", "1_", "0x", "0b2", "0o8", "1e", "1e+", "1.e3", "1Kib", "1k", "1.5Ki", "0.5Ti", "1P", "1Pi", "0e0", "0_0", "0b", "0B1", "0O7"}).Draw(t, "num")
 		return AgreeCase{"num", mutateText(t, base, "0123456789_.eE+-xXbBoOKMGTPi abcfF")}
 	case 1:
@@ -552,4 +559,53 @@ func genAgree(t *rapid.T) AgreeCase {
 
 func TestAgree(t *testing.T) {
 	evid.Main(t, evid.Check[AgreeCase]{Name: "agree", Gen: genAgree, Run: runAgree})
+}
+
+// ---- 4. a reused literal.NumInfo behaves like a fresh one (history independence) ----
+
+type ReuseCase struct {
+	Seq []string
+}
+
+func describeNum(ni *literal.NumInfo, err error) string {
+	if err != nil {
+		return "error"
+	}
+	return fmt.Sprintf("ok int=%v mult=%v str=%s", ni.IsInt(), ni.Multiplier(), ni.String())
+}
+
+func runReuse(c ReuseCase) (res evid.Result) {
+	defer func() {
+		if r := recover(); r != nil {
+			res.Fail = fmt.Sprintf("panic: %v on sequence %q", r, c.Seq)
+		}
+	}()
+	var shared literal.NumInfo
+	nerr := 0
+	for i, s := range c.Seq {
+		var fresh literal.NumInfo
+		want := describeNum(&fresh, literal.ParseNum(s, &fresh))
+		got := describeNum(&shared, literal.ParseNum(s, &shared))
+		if want == "error" {
+			nerr++
+		}
+		if got != want {
+			res.Fail = fmt.Sprintf("ParseNum(%q) on a NumInfo reused after %q gives %q, a fresh NumInfo gives %q", s, c.Seq[:i], got, want)
+			return
+		}
+	}
+	res.NonTrivial = nerr > 0 && nerr < len(c.Seq)
+	res.Classes = []string{fmt.Sprintf("len%d", len(c.Seq))}
+	return
+}
+
+func TestNumInfoReuse(t *testing.T) {
+	evid.Main(t, evid.Check[ReuseCase]{Name: "numinfo-reuse", Gen: func(t *rapid.T) ReuseCase {
+		n := rapid.IntRange(2, 4).Draw(t, "n")
+		var c ReuseCase
+		for i := 0; i < n; i++ {
+			c.Seq = append(c.Seq, genAgreeNum(t))
+		}
+		return c
+	}, Run: runReuse})
 }
